@@ -851,6 +851,9 @@ class PyEval:
                 if len(parts) == 1:
                     return parts[0]
                 return ('boolop', 'and' if f[1] == 'all' else 'or', parts)
+            if f in (('name', 'list'), ('name', 'tuple')) and len(args) == 1 and not kw and args[0][0] in ('list', 'tuple') \
+                    and not any(x[0] == 'star' for x in args[0][1]):
+                return (f[1], args[0][1])             # list((a, b)) is [a, b]; tuple([a, b]) is (a, b)
             if f == ('name', 'getattr') and len(args) == 2 and not kw and args[1][0] == 'const' and isinstance(args[1][1], str) \
                     and args[1][1].isidentifier():
                 # getattr(x, 'name') with a literal name is the attribute x.name
